@@ -1,4 +1,5 @@
 import TakVerif.Proofs.SearchCancelAnalyze
+import TakVerif.Proofs.SearchPrefixAnalyze
 import TakVerif.Proofs.SearchToy
 
 /-! # C16 — cancellation only truncates a search
@@ -63,15 +64,91 @@ theorem after_cancel_exact {g : Game P M} (hg : GameOK g) (hb : EvalBounded g) {
   rintro x ⟨_, h2, _, _, h5, h6⟩
   exact ⟨h2, h5, h6⟩
 
-/-- the statement about the table that is *not* proved here: the table writes of a cancelled `Analyze` are a
-prefix of the table writes of the uninterrupted one.  What is proved instead: `ttPut` refuses a write once the
-flag is seen (by definition of the model, mirrored from the code) and `cancel_local`; the correspondence compares
-the table digest after every cancelled call. -/
-def cancel_tt_prefix_statement : Prop :=
-  ∀ (g : Game P M) (cfg : Cfg) (o : Oracle M), o.Monotone → ∀ (p : P) (s : Eng M) r s',
-    analyze g cfg o p s = .ok (r, s') →
-    ∃ k : Nat, ∃ r2 s2, analyze g cfg { o with cancel := fun l _ => decide (l ≥ k) } p s = .ok (r2, s2) ∧
-      s2.table = s'.table
+/-! ## the table clause
+
+`Eng.wlog` is a ghost field of the model (nothing reads it): `Eng.evict` and `Eng.setEntry`, the only two functions
+that assign into `table` (the Go statements `m.table[i2] = m.table[i1]` in `ttPut` and `*te = tableEntry{…}` in
+`pvSearch`/`zwSearch`), record the index and the entry they write; `Analyze` clears the log where it clears the
+per-call counters.  `writes s'` is the log of the call that ended in `s'`, oldest first; `replay` applies a list of
+writes to a table.
+
+*Wording.*  The earlier `cancel_tt_prefix_statement` ("the cancelled call ends with the table of a call cancelled
+at some load index `k`") was true but said nothing about the uninterrupted call: by monotonicity every cancelled
+call *is* such a call.  It is replaced by the statement about the write sequences themselves. -/
+
+/-- the table assignments `(index, entry)` of the call that ended in `s'`, oldest first -/
+def writes (s' : Eng M) : List (Nat × TEntry M) := s'.wlog.reverse
+
+/-- apply a list of assignments `table[i] = e`, oldest first -/
+def replay (t : Array (TEntry M)) (ws : List (Nat × TEntry M)) : Array (TEntry M) :=
+  ws.foldl (fun t w => t.setIfInBounds w.1 w.2) t
+
+omit [DecidableEq M] in
+theorem replay_writes (t : Array (TEntry M)) (s' : Eng M) : replay t (writes s') = replayR t s'.wlog := by
+  unfold replay writes replayR
+  rw [List.foldl_reverse]
+
+/-- **`cancel_tt_prefix`** (every configuration, every engine state, every monotone oracle): the sequence of
+table assignments made by a cancelled `Analyze` is a prefix of the sequence made by the same `Analyze` with the
+flag never set; and in both calls the table at the end is exactly the table found at the start with these
+assignments applied in order (the log misses nothing).  So a cancelled call leaves the table in a state the
+uninterrupted call passes through. -/
+theorem cancel_tt_prefix (g : Game P M) (cfg : Cfg) {o : Oracle M} (hm : o.Monotone) (p : P) (s : Eng M)
+    (r : List M × Int × Stats) (s' : Eng M) (h : analyze g cfg o p s = .ok (r, s')) :
+    s'.table = replay s.table (writes s') ∧
+    ∀ r2 s2, analyze g cfg o.never p s = .ok (r2, s2) →
+      writes s' <+: writes s2 ∧ s2.table = replay s.table (writes s2) := by
+  obtain ⟨h1, h2⟩ := analyze_writes_prefix hm g cfg p s r s' h
+  refine ⟨by rw [replay_writes]; exact h1, ?_⟩
+  intro r2 s2 hn
+  obtain ⟨h3, h4⟩ := h2 r2 s2 hn
+  exact ⟨List.reverse_prefix.mpr h3, by rw [replay_writes]; exact h4⟩
+
+/-- the table after a cancelled call is the table of the uninterrupted call after its first `k` assignments -/
+theorem cancel_tt_intermediate (g : Game P M) (cfg : Cfg) {o : Oracle M} (hm : o.Monotone) (p : P) (s : Eng M)
+    (r r2 : List M × Int × Stats) (s' s2 : Eng M) (h : analyze g cfg o p s = .ok (r, s'))
+    (hn : analyze g cfg o.never p s = .ok (r2, s2)) :
+    ∃ k, s'.table = replay s.table ((writes s2).take k) := by
+  obtain ⟨h1, h2⟩ := cancel_tt_prefix g cfg hm p s r s' h
+  refine ⟨(writes s').length, ?_⟩
+  rw [← List.prefix_iff_eq_take.mp (h2 r2 s2 hn).1]
+  exact h1
+
+/-- **every entry in the table after a cancelled call is an entry that was there before the call or one that the
+uninterrupted call writes** (at that index, at some point) -/
+theorem cancel_table_entries (g : Game P M) (cfg : Cfg) {o : Oracle M} (hm : o.Monotone) (p : P) (s : Eng M)
+    (r r2 : List M × Int × Stats) (s' s2 : Eng M) (h : analyze g cfg o p s = .ok (r, s'))
+    (hn : analyze g cfg o.never p s = .ok (r2, s2)) (i : Nat) (e : TEntry M) (he : s'.table[i]? = some e) :
+    s.table[i]? = some e ∨ (i, e) ∈ writes s2 := by
+  obtain ⟨h1, h2⟩ := analyze_writes_prefix hm g cfg p s r s' h
+  rw [h1] at he
+  rcases replayR_entry s.table s'.wlog i e he with h3 | h3
+  · exact Or.inl h3
+  · right
+    unfold writes
+    rw [List.mem_reverse]
+    exact (h2 r2 s2 hn).1.subset h3
+
+/-- hence any per-entry invariant of the table that holds before the call and for everything the uninterrupted
+call writes holds after the cancelled call — in particular C05's table invariant (`Search.TableSound`, with
+`Q _ e := ∀ q, g.hash q = e.hash → SoundE g e q`), in every configuration -/
+theorem cancel_table_invariant (g : Game P M) (cfg : Cfg) {o : Oracle M} (hm : o.Monotone) (p : P) (s : Eng M)
+    (r r2 : List M × Int × Stats) (s' s2 : Eng M) (h : analyze g cfg o p s = .ok (r, s'))
+    (hn : analyze g cfg o.never p s = .ok (r2, s2)) (Q : Nat → TEntry M → Prop)
+    (h0 : ∀ i e, s.table[i]? = some e → Q i e) (hw : ∀ w ∈ writes s2, Q w.1 w.2) :
+    ∀ i e, s'.table[i]? = some e → Q i e := by
+  intro i e he
+  rcases cancel_table_entries g cfg hm p s r r2 s' s2 h hn i e he with h1 | h1
+  · exact h0 i e h1
+  · exact hw (i, e) h1
+
+/-- the instance for C05's invariant -/
+theorem cancel_tableSound (g : Game P M) (cfg : Cfg) {o : Oracle M} (hm : o.Monotone) (p : P) (s : Eng M)
+    (r r2 : List M × Int × Stats) (s' s2 : Eng M) (h : analyze g cfg o p s = .ok (r, s'))
+    (hn : analyze g cfg o.never p s = .ok (r2, s2)) (h0 : TableSound g s)
+    (hw : ∀ w ∈ writes s2, ∀ q, g.hash q = w.2.hash → SoundE g w.2 q) : TableSound g s' :=
+  fun i e he => cancel_table_invariant g cfg hm p s r r2 s' s2 h hn (fun _ e => ∀ q, g.hash q = e.hash → SoundE g e q)
+    (fun i e hi => h0 i e hi) hw i e he
 
 /-- a monotone oracle as the harness builds it: the flag is set inside the `k`-th leaf evaluation -/
 def atLeaf (k : Nat) : Oracle Nat := { Oracle.quiet with cancel := fun _ e => decide (k ≤ e) }
@@ -89,5 +166,19 @@ example :
     (match analyze Toy.game (Toy.cfg.withDepth 1) (atLeaf 4).never 7 (Eng.new Toy.game Toy.cfg) with
       | .ok ((ms, v, st), _) => some (ms, v, st.depth, st.canceled) | .error _ => none) = some ([1], 0, 1, false) := by
   decide
+
+/-- non-vacuity of the table clause on the heap game with a 4-entry table: the depth-4 `Analyze` of the heap 7
+cancelled inside its 12th leaf evaluation has made 16 table assignments, the uninterrupted one makes 40, the 16 are
+the first 16 of the 40, and the cancelled call's table is the new engine's table with the 16 applied -/
+example :
+    (match analyze Toy.game { Toy.cfg with tableEntries := some 4 } (atLeaf 12) 7
+        (Eng.new Toy.game { Toy.cfg with tableEntries := some 4 }),
+      analyze Toy.game { Toy.cfg with tableEntries := some 4 } (atLeaf 12).never 7
+        (Eng.new Toy.game { Toy.cfg with tableEntries := some 4 }) with
+    | .ok (_, s'), .ok (_, s2) =>
+      some ((writes s').length, (writes s2).length, decide (writes s' <+: writes s2),
+        decide (s'.table = replay (Eng.new Toy.game { Toy.cfg with tableEntries := some 4 }).table ((writes s2).take 16)))
+    | _, _ => none) = some (16, 40, true, true) := by
+  decide +kernel
 
 end C16
